@@ -73,7 +73,20 @@ func errClass(err error) string {
 // c09Arena is the long-lived backing array of the server's key slice (see drive).
 var c09Arena = make([]ech.Key, 16)
 
+// drive runs the flow twice over the SAME Option values (an application builds its options
+// once and hands them to NewConn for every connection it accepts) and requires the second
+// connection to fare exactly like the first.
 func drive(keys []*hello.Key, stream []byte, hrr []byte) connOutcome {
+	var opts []ech.Option
+	first := driveOnce(keys, stream, hrr, &opts)
+	second := driveOnce(keys, stream, hrr, &opts)
+	if !sameOutcome(first, second) {
+		first.Err2 += "|a second connection given the same Option values fares differently: " + second.String()
+	}
+	return first
+}
+
+func driveOnce(keys []*hello.Key, stream []byte, hrr []byte, opts *[]ech.Option) connOutcome {
 	var o connOutcome
 	tr := wire.New(stream, io.EOF)
 	// the key list reaches NewConn the way an application assembling it from two sources
@@ -83,22 +96,25 @@ func drive(keys []*hello.Key, stream []byte, hrr []byte) connOutcome {
 	split := (len(all) + 1) / 2
 	// the application keeps ONE long-lived key slice and replaces its elements in place when
 	// keys rotate: every call here reuses the same backing array for whatever list it is given
-	for i := range c09Arena {
-		c09Arena[i] = ech.Key{}
-	}
 	base := c09Arena[:split : split+3]
-	copy(base, all[:split])
+	if *opts == nil {
+		for i := range c09Arena {
+			c09Arena[i] = ech.Key{}
+		}
+		copy(base, all[:split])
+		switch {
+		case keys == nil:
+			*opts = []ech.Option{}
+		case len(all) > split:
+			*opts = []ech.Option{ech.WithKeys(base), ech.WithKeys(all[split:])}
+		default:
+			*opts = []ech.Option{ech.WithKeys(base)}
+		}
+	}
 	var c *ech.Conn
 	err := guard(func() error {
 		var e error
-		switch {
-		case keys == nil:
-			c, e = ech.NewConn(context.Background(), tr)
-		case len(all) > split:
-			c, e = ech.NewConn(context.Background(), tr, ech.WithKeys(base), ech.WithKeys(all[split:]))
-		default:
-			c, e = ech.NewConn(context.Background(), tr, ech.WithKeys(base))
-		}
+		c, e = ech.NewConn(context.Background(), tr, *opts...)
 		return e
 	})
 	interloper := func() {
